@@ -418,6 +418,12 @@ class Mp4Atom(ObjectWithFields):
             hdr = Mp4Atom.parse(src, parent, options=options)
             if hdr is None:
                 break
+            if (
+                    hdr['size'] < hdr['header_size'] or
+                    (end is not None and (hdr['position'] + hdr['size']) > end)):
+                raise ValueError(
+                    '{}box "{}" at position {:d} has an invalid size {:d}'.format(
+                        prefix, hdr['atom_type'], hdr['position'], hdr['size']))
             try:
                 Box = fourcc.BOXES[hdr['atom_type']]
             except KeyError:
